@@ -193,6 +193,12 @@ def commonOp (cfg : Cfg) (s : AState) : Op → Option AState
   | .getlineno => some (s.emit s!"lineno {s.getLineno cfg}")
   | _ => none
 
+/-- `EOB_ACT_END_OF_FILE` on a buffer that is filled from a file: `yyrestart(yyin)` — the beginning-of-line
+    flag is set (a memory buffer, `yy_fill_buffer == 0`, is left alone) -/
+def AState.eofRestart (s : AState) : AState :=
+  let b := s.curBuf
+  if b.file.isSome then s.setCurBuf { b with atBol := true } else s
+
 /-- end of the current buffer's input reached while something wants a byte: consult yywrap.
     Returns `true` if another source was installed (scanning continues). -/
 def doWrap (s : AState) : AState × Bool :=
@@ -393,7 +399,10 @@ def lexCall (M : Matcher) (cfg : Cfg) : Nat → AState → AState
     let prefix_ := if s.moreFlag then s.text else []
     match b.pending with
     | [] =>
-      -- end of input: yywrap, then the EOF action of the current start condition
+      -- end of input: a buffer read from a file is re-initialised at this point (yy_get_next_buffer calls
+      -- yyrestart(yyin)), which puts it at the beginning of a line; then yywrap, then the EOF action of
+      -- the current start condition
+      let s := s.eofRestart
       let (s, more) := doWrap (markMayFatal cfg s prefix_.length)
       if more then lexCall M cfg fuel s
       else if cfg.eofScs.contains s.start then
